@@ -1340,3 +1340,219 @@ func runC05Append(c *Ctx) {
 		c.Errorf("only %d append-style functions found, expected >= 30", n)
 	}
 }
+
+func init() {
+	register(&Rule{
+		ID:    "C01.grouped",
+		Props: []string{"C01", "C13", "C10"},
+		Doc:   "adjacent-duplicate removal needs a grouped input: every call of a function that removes only ADJACENT duplicates (uniquifyGroupedXYs, and any function whose loop compares element i with element i-1 and compacts in place) receives the very slice value that a dominating sort call (sort.Slice/sort.Sort/sort.Float64s) has just sorted — de-duplicating before the sort leaves equal values that are not neighbours, e.g. a cut point reported by two crossing lines, which becomes a zero-length edge",
+		Floor: 2,
+		Run:   runC01Grouped,
+	})
+	register(&Rule{
+		ID:    "C01.peroperand",
+		Props: []string{"C01", "C02", "C10"},
+		Doc:   "per-operand passes do not share scratch state: a function literal run once per operand (passed to forEachOperand) and the closures nested in it write only to maps created inside that literal — a visited/memo map captured from the enclosing function carries operand A's traversal into operand B's pass (faces visited for A are never entered for B)",
+		Floor: 3,
+		Run:   runC01PerOperand,
+	})
+}
+
+// adjacentDedup: f compacts its slice parameter by comparing element i with
+// element i-1 (removes adjacent duplicates only).
+func adjacentDedup(f *ssa.Function) bool {
+	if f.Blocks == nil || len(f.Params) != 1 {
+		return false
+	}
+	if _, ok := f.Params[0].Type().Underlying().(*types.Slice); !ok {
+		return false
+	}
+	found := false
+	selfSorting := false
+	eachCall(f, func(ci ssa.CallInstruction) {
+		if strings.HasPrefix(calleeName(ci), "sort.") {
+			selfSorting = true
+		}
+	})
+	if selfSorting {
+		return false // sorts its input itself: removes all duplicates
+	}
+	eachInstr(f, func(in ssa.Instruction) {
+		bo, ok := in.(*ssa.BinOp)
+		if !ok || (bo.Op != token.NEQ && bo.Op != token.EQL) {
+			return
+		}
+		idx := func(v ssa.Value) (ssa.Value, bool) {
+			ld, ok := v.(*ssa.UnOp)
+			if !ok || ld.Op != token.MUL {
+				return nil, false
+			}
+			ia, ok := ld.X.(*ssa.IndexAddr)
+			if !ok || ia.X != ssa.Value(f.Params[0]) {
+				return nil, false
+			}
+			return ia.Index, true
+		}
+		i1, ok1 := idx(bo.X)
+		i2, ok2 := idx(bo.Y)
+		if !ok1 || !ok2 {
+			return
+		}
+		for _, pr := range [][2]ssa.Value{{i1, i2}, {i2, i1}} {
+			if sub, ok := pr[1].(*ssa.BinOp); ok && sub.Op == token.SUB && sub.X == pr[0] {
+				if k, isC := constInt(sub.Y); isC && k == 1 {
+					found = true
+				}
+			}
+		}
+	})
+	return found
+}
+
+func runC01Grouped(c *Ctx) {
+	var dedups []*ssa.Function
+	for _, f := range c.P.Funcs {
+		if c.P.InRepo(f) && f.Parent() == nil && adjacentDedup(f) {
+			dedups = append(dedups, f)
+		}
+	}
+	if len(dedups) < 1 {
+		c.Errorf("no adjacent-duplicate remover found (uniquifyGroupedXYs expected)")
+		return
+	}
+	isDedup := map[*ssa.Function]bool{}
+	for _, d := range dedups {
+		isDedup[d] = true
+	}
+	n := 0
+	for _, f := range c.P.Funcs {
+		if !c.P.InRepo(f) {
+			continue
+		}
+		fn := FuncName(f)
+		eachCall(f, func(ci ssa.CallInstruction) {
+			cal := staticCallee(ci)
+			if cal == nil || !isDedup[cal] {
+				return
+			}
+			n++
+			arg := ci.Common().Args[0]
+			sorted := false
+			eachCall(f, func(sc ssa.CallInstruction) {
+				name := calleeName(sc)
+				if !strings.HasPrefix(name, "sort.") || len(sc.Common().Args) == 0 {
+					return
+				}
+				a0 := sc.Common().Args[0]
+				if mi, ok := a0.(*ssa.MakeInterface); ok {
+					a0 = mi.X
+				}
+				if a0 != arg && !sameValue(a0, arg) {
+					return
+				}
+				// the sort comes first on every path: same block earlier, or a dominating block
+				if sc.Block() == ci.Block() {
+					for _, in := range sc.Block().Instrs {
+						if in == sc.(ssa.Instruction) {
+							sorted = true
+							break
+						}
+						if in == ci.(ssa.Instruction) {
+							break
+						}
+					}
+				} else if sc.Block().Dominates(ci.Block()) {
+					sorted = true
+				}
+			})
+			// a self-contained dedup that sorts inside is not an adjacent-only remover; the
+			// sorted-on-entry contract can also be met by the caller when f itself is such a remover
+			as, _ := accessPath(arg)
+			c.Check(sorted, ci.Pos(), fn, "adjacent de-duplication of "+trunc(as), "the same slice value was sorted by a dominating sort call", "`"+cal.Name()+"` removes only adjacent duplicates, but its argument has not been sorted first (no dominating sort of that slice value): equal elements that are not neighbours survive")
+		})
+	}
+	if n < 2 {
+		c.Errorf("only %d calls of adjacent-duplicate removers found, expected 2", n)
+	}
+}
+
+func runC01PerOperand(c *Ctx) {
+	n := 0
+	for _, f := range c.P.Funcs {
+		if pkgOf(f) != "geom" {
+			continue
+		}
+		for _, call := range callsTo(f, "geom.forEachOperand") {
+			mc, ok := call.Common().Args[0].(*ssa.MakeClosure)
+			if !ok {
+				continue // a plain function: has no captured state
+			}
+			lit := mc.Fn.(*ssa.Function)
+			n++
+			fn := FuncName(lit)
+			bad := ""
+			// maps written by lit or closures nested in it
+			var visit func(g *ssa.Function)
+			visit = func(g *ssa.Function) {
+				eachInstr(g, func(in ssa.Instruction) {
+					mu, ok := in.(*ssa.MapUpdate)
+					if !ok {
+						return
+					}
+					// resolve the map's cell up to lit
+					v := mu.Map
+					h := g
+					for i := 0; i < 6; i++ {
+						ld, ok := v.(*ssa.UnOp)
+						if !ok || ld.Op != token.MUL {
+							break
+						}
+						fv, ok := ld.X.(*ssa.FreeVar)
+						if !ok {
+							break
+						}
+						if h == lit {
+							ms, _ := accessPath(mu.Map)
+							bad = "writes to the map " + ms + " captured from " + FuncName(lit.Parent()) + " at " + c.P.Pos(mu.Pos())
+							return
+						}
+						// find the binding of fv in the MakeClosure of h inside its parent
+						idx := -1
+						for k, x := range h.FreeVars {
+							if x == fv {
+								idx = k
+							}
+						}
+						par := h.Parent()
+						var bind ssa.Value
+						if par != nil && idx >= 0 {
+							eachInstr(par, func(in2 ssa.Instruction) {
+								if m2, ok := in2.(*ssa.MakeClosure); ok && m2.Fn == ssa.Value(h) && idx < len(m2.Bindings) {
+									bind = m2.Bindings[idx]
+								}
+							})
+						}
+						if bind == nil {
+							break
+						}
+						if _, isFV := bind.(*ssa.FreeVar); isFV {
+							// still a captured variable one level up: continue with a load of it
+							v = &ssa.UnOp{Op: token.MUL, X: bind}
+							h = par
+							continue
+						}
+						break // an Alloc of the parent (inside lit or deeper): private to this pass
+					}
+				})
+				for _, an := range g.AnonFuncs {
+					visit(an)
+				}
+			}
+			visit(lit)
+			c.Check(bad == "", lit.Pos(), fn, "scratch maps of the per-operand pass", "created inside the pass", "the per-operand pass "+bad+": state of the first operand's pass leaks into the second's")
+		}
+	}
+	if n < 3 {
+		c.Errorf("only %d per-operand function literals found, expected >= 3", n)
+	}
+}
